@@ -23,7 +23,7 @@ Print Assumptions C20_contract_true.
 (* with such contracts, a nil argument is never hidden: if no conflict is reported, no execution dereferences nil --
    in particular not the result of a contracted callee that was handed nil (literal, constant or variable) *)
 Theorem C20_contracts_never_hide_nil : forall prog afuel hf ctr pk r st,
-  analyze_program afuel ctr pk prog = Some r -> r_gsafe r = true -> r_clocal r = true ->
+  analyze_program afuel ctr pk prog = Some r -> r_gsafe r = true -> r_clocal r = true -> r_nodel r = true ->
   wf_program prog = true -> impls_plain prog ctr = true ->
   (forall g fd, ctr g = true -> nth_error (p_funcs prog) g = Some fd -> infer_sem hf fd = true) ->
   pkg_run [] [] (all_triggers r) st -> conflicts st = [] ->
@@ -33,7 +33,7 @@ Print Assumptions C20_contracts_never_hide_nil.
 
 (* the same for any true contracts, however they were obtained *)
 Theorem C20_sound_for_true_contracts : forall prog afuel ctr pk r st,
-  analyze_program afuel ctr pk prog = Some r -> r_gsafe r = true -> r_clocal r = true ->
+  analyze_program afuel ctr pk prog = Some r -> r_gsafe r = true -> r_clocal r = true -> r_nodel r = true ->
   wf_program prog = true -> ctr_arity ctr 0 (p_funcs prog) = true -> impls_plain prog ctr = true ->
   (forall g fd, ctr g = true -> nth_error (p_funcs prog) g = Some fd -> contract_true prog fd) ->
   pkg_run [] [] (all_triggers r) st -> conflicts st = [] ->
